@@ -174,5 +174,5 @@ Proof. vm_compute. reflexivity. Qed.
 Example anchor_decode_metadata :
   process_message (fun _ => true) lit_mkey lit_mval1 0
   = Done [SetConsumerOwner (str "testgroup") (str "topic1") 11 (str "testclienthost") (str "testclientid")]
-         [9; 8; 12; 10; 12; 12; 14; 48; 6; 4].
+         [9; 8; 12; 10; 12; 12; 14; 6; 4].
 Proof. vm_compute. reflexivity. Qed.
